@@ -215,4 +215,33 @@ theorem convertFractionValue_base {db : Db} (hdb : ∀ r ∈ db.units, r.WF) {sm
     rw [hfrac]
     linear_combination en + (em - ez) / d
 
+/-! ### `Fraction(number)` on integers: nothing to shift, nothing lost -/
+
+theorem pyRound_intCast (n : Int) : pyRound (n : Rat) = n := by
+  unfold pyRound
+  have hf : (n : Rat).floor = n := Rat.floor_intCast n
+  simp only [hf, sub_self]
+  norm_num
+
+theorem fractionOfNumber_intCast {small : Rat} (hs : 0 ≤ small) (n : Int) :
+    fractionOfNumber small (n : Rat) = n := by
+  unfold fractionOfNumber
+  have h : fracLoop 64 small (n : Rat) 1 = ((n : Rat), 1) := by
+    show fracLoop (63 + 1) small (n : Rat) 1 = ((n : Rat), 1)
+    unfold fracLoop
+    have : ¬ small < absR ((n : Rat) - ((pyRound (n : Rat) : Int) : Rat)) := by
+      rw [pyRound_intCast]; simp [absR]; exact hs
+    simp [this]
+  rw [h]
+  simp [pyRound_intCast]
+
+/-- two FractionScalars in one unit: nothing is converted, so the numerator is kept -/
+theorem numeratorKept_same_unit {db : Db} {small : Rat} (hs : 0 ≤ small) (b : FSc) :
+    b.NumeratorKept db small b.q.unit := by
+  intro a z ha hz
+  unfold SimpleQ.convertScalarValue at ha hz
+  simp at ha hz
+  subst ha; subst hz
+  simpa using fractionOfNumber_intCast hs b.v.frac.num
+
 end Barril
